@@ -554,6 +554,20 @@ def r01_6(ctx):
             detail = '`%s`: %s%s' % (wn.text(), '' if il else 'not inside the handle\'s critical section; ',
                                      '' if g else 'no already-resolved test in the critical section')
         ctx.ob('R01.6', '%s._set:single-assignment-under-lock' % cn, ok, fi, bad[0][0] if bad else None, detail)
+        # once the outcome is observable (the event is set: ready() / get() / successful() answer) it never changes,
+        # not even further down in the same call (e.g. "a failing success callback turns the job into a failure")
+        shown = [n for (n, c) in q.calls(fi, 'self._event.set')]
+        after = cfg.reach([n.id for n in shown], skip_labels=()) if shown else set()
+        late = [dn for (dn, t, v) in q.assigns(fi, lambda t: t in ('self._success', 'self._value') or
+                                               t.startswith('self._value['))
+                if dn.id in after and not any(dn.id == s_.id for s_ in shown)]
+        # a loop (MapResult: one call per part) reaches its own earlier statements again; only writes that can
+        # follow the event.set of the *same* call on a loop-free path count
+        late = [dn for dn in late if not any(cfg.dominated_by(s_, [dn])[0] for s_ in shown)]
+        ctx.ob('R01.6', '%s._set:outcome-fixed-once-observable' % cn, bool(shown) and not late, fi, late[0] if late else None,
+               'no write of the outcome is reachable after self._event.set()' if not late else
+               '`%s` rewrites the outcome after it became observable: a caller that already saw ready()/get() sees it '
+               'change, and both callbacks can fire for one job' % late[0].text())
 
 
 def run(ctx):
